@@ -37,6 +37,12 @@ def run(ctx):
                     ctx.violation("h_lwe ks (%d,%d) %s build died rc=%s %s" % (t, bb, kind, rc, err[-200:]), key="h_lwe ks crash (%d,%d) %s" % (t, bb, kind))
                     continue
                 out.write(open(part).read())
+            part = f + ".part"
+            rc, err = table.run_harness(ctx, exe, ["ksseq", "--ts", ",".join(str(t) for t, _ in lay), "--bbs", ",".join(str(b) for _, b in lay), "--samples", 24, "--seed", ctx.seed + 9], part)
+            if rc != 0:
+                ctx.violation("h_lwe ksseq %s build died rc=%s %s" % (kind, rc, err[-200:]), key="h_lwe ksseq crash %s" % kind)
+            else:
+                out.write(open(part).read())
         bad = table.validate_rows(ctx, "Table_C08", f, what="C08 ks %s" % kind, timeout=3000)
         if bad:
             import json
